@@ -37,6 +37,8 @@ func leaves(thorough bool) []*Node {
 		// []interface{} with RUNS of one kind that contain the zero value (a literal that cannot be read in that kind must
 		// be skipped element by element, never compared against a left-over zero)
 		NSlice(TAny, NInt(KInt, false, 7), NInt(KInt, false, 0)), NSlice(TAny, NFloat(KFloat64, false, 1.5), NFloat(KFloat64, false, 0)), NSlice(TAny, NBool(false, true), NBool(false, false)),
+		// interface lists holding pointer chains that END in nil at depth 2, and non-nil chains of depth 2
+		NSlice(TAny, NPtr(NNilPtr(TInt)), one), NSlice(TAny, NPtr(NPtr(one)), NNilPtr(TInt)), NArray(TAny, NPtr(NNilPtr(TStr)), str("a")),
 		NSlice(TAny, str("a"), NUint(KUint8, false, 3), NUint(KUint8, false, 0), str("")), NSlice(TAny, NFloat(KFloat32, false, 1.5), NFloat(KFloat64, false, 1.5), NFloat(KFloat32, false, 0)),
 	)
 	if thorough {
